@@ -437,10 +437,36 @@ func addCondFacts(m map[Fact]bool, cond ssa.Value, truth bool) {
 	}
 }
 
+// edgeCtx lets a rule evaluate facts "at the end of block pred on the edge to
+// succ" (needed for phi operands): while set, At(pred) also returns the
+// branch condition of that edge.
+var edgeCtx struct {
+	block *ssa.BasicBlock
+	facts []Fact
+}
+
+func withEdge(pred, succ *ssa.BasicBlock, f func()) {
+	saved := edgeCtx
+	edgeCtx.block = pred
+	edgeCtx.facts = nil
+	if iff, ok := pred.Instrs[len(pred.Instrs)-1].(*ssa.If); ok && pred.Succs[0] != pred.Succs[1] {
+		m := map[Fact]bool{}
+		addCondFacts(m, iff.Cond, pred.Succs[0] == succ)
+		for k := range m {
+			edgeCtx.facts = append(edgeCtx.facts, k)
+		}
+	}
+	defer func() { edgeCtx = saved }()
+	f()
+}
+
 func (ft *factTable) At(b *ssa.BasicBlock) []Fact {
 	var out []Fact
 	for f := range ft.in[b] {
 		out = append(out, f)
+	}
+	if edgeCtx.block == b {
+		out = append(out, edgeCtx.facts...)
 	}
 	return out
 }
